@@ -53,6 +53,8 @@ def main():
                                 '(S: symbolic data kernels; E: solver-enumerated structures run on real objects, py and C builds)'),
             dict(name='astsmt', path='vlib/astsmt.py', serves_properties=[c['property_id'] for c in checks if 'astsmt' in c['engine']],
                  kind_free_text='z3 encoding generated from the function AST on every run (unbounded LIA queries)'),
+            dict(name='irsym', path='vlib/irsym.py', serves_properties=[c['property_id'] for c in checks if 'irsym' in c['engine']],
+                 kind_free_text='symbolic execution of the LLVM IR of _zope_interface_coptimizations.c (lookup layer) with C-API contract stubs, z3 reference counts and havoc at callback points'),
         ],
         checks=checks,
         not_applicable=na,
